@@ -517,6 +517,7 @@ end
 
 const consumerSrc = `
 local me, ci = ...
+local kept = {}
 while true do
   jitter()
   local t0 = stamp()
@@ -524,7 +525,11 @@ while true do
   local t1 = stamp()
   log("recv", ci, v or -1, ok, t0, t1)
   if not ok then break end
+  kept[#kept + 1] = v
 end
+-- the senders' states are closed by now and other states have run since: a value
+-- that was received stays what it was
+for i = 1, #kept do log("kept", ci, kept[i], true, i, i) end
 `
 
 func runChannels(c *fw.Ctx, idx int, count bool) {
@@ -621,7 +626,7 @@ func runChannels(c *fw.Ctx, idx int, count bool) {
 		pw.Wait()
 		// all sends done: close through the Lua API from a closer state
 		L := setup(999)
-		runScript(L, `for i = 1, #chans do local t0 = stamp() chans[i]:close() local t1 = stamp() log("close", i, -1, true, t0, t1) end`)
+		runScript(L, `local x = 0.25 for i = 1, 400 do x = x + i * 1.5 end for i = 1, #chans do local t0 = stamp() chans[i]:close() local t1 = stamp() log("close", i, -1, true, t0, t1) end`)
 		cw.Wait()
 		close(finished)
 	}()
@@ -641,6 +646,29 @@ func runChannels(c *fw.Ctx, idx int, count bool) {
 	mu.Lock()
 	evs := append([]chEvent(nil), events...)
 	mu.Unlock()
+	// what each receiver kept must be what it received, in that order (checked on
+	// the log order of each client, then taken out of the timed history)
+	gotBy, keptBy := map[int][]int{}, map[int][]int{}
+	timed := evs[:0:0]
+	for _, e := range evs {
+		switch {
+		case e.Op == "kept":
+			keptBy[e.Client] = append(keptBy[e.Client], e.V)
+			continue
+		case e.Op == "recv" && e.OK:
+			gotBy[e.Client] = append(gotBy[e.Client], e.V)
+		}
+		timed = append(timed, e)
+	}
+	evs = timed
+	for cl, got := range gotBy {
+		if fmt.Sprint(got) != fmt.Sprint(keptBy[cl]) {
+			bad = fmt.Sprintf("receiver %d: the values it kept in a table read back differently after the senders' states were closed: received %v, kept %v", cl, got, keptBy[cl])
+		}
+	}
+	if count {
+		c.Count("kept_values_read_back", int64(len(gotBy)))
+	}
 	sort.SliceStable(evs, func(a, b int) bool { return evs[a].Call < evs[b].Call })
 	for _, e := range evs {
 		if e.Op == "close" {
@@ -723,6 +751,125 @@ func runChannels(c *fw.Ctx, idx int, count bool) {
 		c.Sample(map[string]any{"kind": "channels", "producers": P, "channels": nch, "consumers_per_channel": consPer, "capacity": capacity, "events": len(evs), "first_events": head})
 	}
 	c.End(len(evs) >= 50, fmt.Sprintf("channels/%d/%d", idx, len(evs)))
+}
+
+// ---------- (B2) conservation across cancellation ----------
+
+// runCancelConserve: channel operations made through the Go API on a state whose
+// context is done either take effect or are refused - a refused receive takes
+// nothing out of the channel, a refused send puts nothing in.
+func runCancelConserve(c *fw.Ctx, idx int, count bool) {
+	cs := Case{Kind: "cancel-conserve", Idx: idx}
+	c.Begin(cs)
+	r := c.SubRand("cc", idx)
+	n := 64 + r.Intn(193)
+	in := make(chan lua.LValue, n)
+	out := make(chan lua.LValue, n)
+	for i := 0; i < n; i++ {
+		in <- lua.LNumber(1000 + i)
+	}
+	L := lua.NewState()
+	defer L.Close()
+	ctx, cancel := context.WithCancel(context.Background())
+	defer cancel()
+	L.SetContext(ctx)
+	L.SetGlobal("cin", lua.LChannel(in))
+	if err := L.DoString(`recv, snd = cin.receive, cin.send`); err != nil {
+		c.Violation("cancel-conserve: cannot take the channel methods: "+err.Error(), cs)
+		c.End(false, "")
+		return
+	}
+	recv, snd := L.GetGlobal("recv"), L.GetGlobal("snd")
+	bad := ""
+	seen := map[int]int{}
+	last := -1
+	delivered, refused := 0, 0
+	take := func() {
+		top := L.GetTop()
+		err := L.CallByParam(lua.P{Fn: recv, NRet: 2, Protect: true}, lua.LChannel(in))
+		if err != nil {
+			refused++
+			if ctx.Err() == nil || !strings.Contains(err.Error(), ctx.Err().Error()) {
+				bad = "receive failed with something other than the context's reason: " + errClass(err.Error())
+			}
+			L.SetTop(top)
+			return
+		}
+		ok, v := L.Get(-2), L.Get(-1)
+		L.SetTop(top)
+		if num, isNum := v.(lua.LNumber); ok == lua.LTrue && isNum {
+			delivered++
+			seen[int(num)]++
+			if int(num) <= last {
+				bad = fmt.Sprintf("value %d delivered after %d (order of one sender)", int(num), last)
+			}
+			last = int(num)
+		} else {
+			bad = "receive returned " + gl.Canon(ok, gl.NewIDMap()) + " on an open channel that holds values"
+		}
+	}
+	for i, live := 0, r.Intn(6); i < live; i++ {
+		take() // context not done yet
+	}
+	if refused > 0 {
+		bad = "a receive was refused before the context was done"
+	}
+	cancel()
+	for i := 0; i < n; i++ {
+		take()
+	}
+	queued := 0
+	for len(in) > 0 {
+		v := <-in
+		queued++
+		seen[int(v.(lua.LNumber))]++
+	}
+	for i := 0; i < n && bad == ""; i++ {
+		if k := seen[1000+i]; k != 1 {
+			bad = fmt.Sprintf("value %d was delivered or left queued %d times (delivered %d, refused %d, still queued %d of %d): a refused receive took it out of the channel", 1000+i, k, delivered, refused, queued, n)
+		}
+	}
+	// sends under the done context: accepted ones are in the channel once, refused ones are not
+	accepted := map[int]bool{}
+	srefused := 0
+	for i := 0; i < n; i++ {
+		top := L.GetTop()
+		err := L.CallByParam(lua.P{Fn: snd, NRet: 0, Protect: true}, lua.LChannel(out), lua.LNumber(5000+i))
+		L.SetTop(top)
+		if err != nil {
+			srefused++
+		} else {
+			accepted[5000+i] = true
+		}
+	}
+	inOut := map[int]int{}
+	for len(out) > 0 {
+		v := <-out
+		inOut[int(v.(lua.LNumber))]++
+	}
+	for i := 0; i < n && bad == ""; i++ {
+		want := 0
+		if accepted[5000+i] {
+			want = 1
+		}
+		if inOut[5000+i] != want {
+			bad = fmt.Sprintf("send of %d under a done context reported accepted=%v but the channel holds it %d times", 5000+i, accepted[5000+i], inOut[5000+i])
+		}
+	}
+	if count {
+		c.Count("cancel_conserve_scenarios", 1)
+		c.Count("cancel_conserve_receives_delivered", int64(delivered))
+		c.Count("cancel_conserve_receives_refused", int64(refused))
+		c.Count("cancel_conserve_sends_refused", int64(srefused))
+		c.Count("cancel_conserve_sends_accepted", int64(len(accepted)))
+	}
+	if bad != "" {
+		cs.Diff = bad
+		c.Violation("channel operations under a done context: "+bad, cs)
+		c.End(false, "")
+		return
+	}
+	c.End(delivered+refused >= 50, fmt.Sprintf("cancel-conserve/%d", idx))
 }
 
 // ---------- (C) select readiness and payload refusal ----------
@@ -867,6 +1014,11 @@ func run(c *fw.Ctx) {
 			runTaint(c, i, true)
 		}
 	}
+	for i := 0; i < c.Pick(48, 2000); i++ {
+		if c.Mine(i) {
+			runCancelConserve(c, i, true)
+		}
+	}
 	runSelectAndPayload(c, true, false)
 	runSelectAndPayload(c, true, true)
 }
@@ -884,6 +1036,8 @@ func replay(c *fw.Ctx, raw json.RawMessage) {
 		runChannels(c, cs.Idx, false)
 	case "taint":
 		runTaint(c, cs.Idx, false)
+	case "cancel-conserve":
+		runCancelConserve(c, cs.Idx, false)
 	default:
 		runSelectAndPayload(c, false, cs.Kind == "select-payload-ctx")
 	}
